@@ -511,6 +511,7 @@ class Color(enum.Enum):
     RED = 1
     X = "x"
     ONE = "1"
+    CRIMSON = 1      # an alias (a name without a member of its own)
 
 
 class IE(enum.IntEnum):
@@ -785,7 +786,8 @@ def type_specs():
         "int": int, "bool": bool, "float": float, "str": str, "Decimal": decimal.Decimal, "Fraction": fractions.Fraction,
         "UUID": uuid.UUID, "PurePosixPath": pathlib.PurePosixPath, "Path": pathlib.Path, "Pattern": re.Pattern,
         "date": datetime.date, "datetime": datetime.datetime, "timedelta": datetime.timedelta, "NoneType": type(None),
-        "Color": Color, "IE": IE, "SE": SE,
+        "Color": Color, "IE": IE, "SE": SE, "Optional[Color]": typing.Optional[Color], "IE|str": typing.Union[IE, str],
+        "int|SE": typing.Union[int, SE], "list[Color]": list[Color], "dict[str,SE]": dict[str, SE],
         "Literal[1,2]": typing.Literal[1, 2], "Literal['a','b']": typing.Literal["a", "b"],
         "Literal['1','true','[1]']": typing.Literal["1", "true", "[1]"], "Literal[1,'1']": typing.Literal[1, "1"],
         "Literal[None,True]": typing.Literal[None, True],
@@ -810,6 +812,38 @@ def type_specs():
     for n, T in BARE_CAST.items():
         specs["bare:" + n] = T
     return specs
+
+
+def own_strings(T, _seen=None) -> list:
+    """strings DERIVED from the type itself: what a reader that "also accepts" some spelling of T's own parts would
+    treat specially and that no general pool contains -- enum member names / aliases / qualified names / reprs (seeded
+    change C14-r6m2: member names accepted, from the raw str only), field and class names, the text of Literal members"""
+    seen = set() if _seen is None else _seen
+    if id(T) in seen:
+        return []
+    seen.add(id(T))
+    out = []
+    if isinstance(T, type) and issubclass(T, enum.Enum):
+        for name, m in T.__members__.items():
+            out += [name, name.lower(), f"{T.__name__}.{name}", repr(m), str(m), stdjson.dumps(name), repr(name)]
+    elif isinstance(T, type) and (dataclasses.is_dataclass(T) or hasattr(T, "_fields") or hasattr(T, "__annotations__")):
+        names = list(getattr(T, "__annotations__", {}))
+        out += names + [T.__name__, stdjson.dumps(names), stdjson.dumps({n: n for n in names})]
+        try:
+            for h in typing.get_type_hints(T).values():
+                out += own_strings(h, seen)
+        except Exception:  # noqa: BLE001
+            pass
+    elif typing.get_origin(T) is typing.Literal:
+        for a in typing.get_args(T):
+            out += [str(a), repr(a), stdjson.dumps(a) if not isinstance(a, bytes) else repr(a)]
+    for a in typing.get_args(T):
+        if not isinstance(a, (str, int, bytes, bool, type(None), type(Ellipsis))) or isinstance(a, type):
+            out += own_strings(a, seen)
+    sup = getattr(T, "__supertype__", None) or getattr(T, "__value__", None)
+    if sup is not None and not isinstance(sup, str):
+        out += own_strings(sup, seen)
+    return list(dict.fromkeys(x for x in out if isinstance(x, str)))
 
 
 def is_container_spec(name: str) -> bool:
@@ -1165,6 +1199,7 @@ def search(run: lib.Run, broken):
         # wire texts of this type's own values are always in
         for m in WIRE.get(WIRE_FOR.get(tname, ""), []):
             ss = ss + [stdjson.dumps(m), repr(m)]
+        ss = ss + own_strings(T)      # names of the type's own parts
         for s in ss:
             n["carriers"] += 1
             f = check_carriers(tname, T, s)
